@@ -634,4 +634,4 @@ def fixed_cases() -> list:
     return out
 
 
-ENGINES = [Engine('histories', cases, check, quick=1500, thorough=6000, batch=500, fixed_cases=fixed_cases)]
+ENGINES = [Engine('histories', cases, check, quick=1500, thorough=24000, batch=500, fixed_cases=fixed_cases, thorough_s=1200.0)]
